@@ -239,9 +239,12 @@ def cusip2isin(cusip: str, nation: Optional[str] = None) -> str:
 
 
 def sedol2isin(sedol, nation=None) -> str:
+    # Validate inputs (explicitly, as cusip2isin() does - not with ``assert``,
+    # which python -O strips)
+    if len(sedol) != 7 or sedol_checksum(sedol[:6]) != sedol[6]:
+        raise ValueError("'%s' is not a valid SEDOL" % sedol)
+
     nation = nation or "GB"
-    assert len(sedol) == 7
-    assert sedol_checksum(sedol[:6]) == sedol[6]
     base = nation + sedol.zfill(9)
     return base + isin_checksum(base)
 
